@@ -58,4 +58,38 @@ func ZzC17MikeyContext() {
 	}
 	zzCover("with MKI", withMKI)
 	zzCover("without MKI", !withMKI)
+
+	// no downgrade through the policy: a message in which ONE of the six mandatory
+	// security-policy parameters is missing or carries another value (encryption
+	// or authentication switched off, other algorithm, other key length) is refused
+	mandatory := []mikey.PayloadSPPolicyParamType{
+		mikey.PayloadSPPolicyParamTypeEncrAlg, mikey.PayloadSPPolicyParamTypeSessionEncrKeyLen, mikey.PayloadSPPolicyParamTypeAuthAlg,
+		mikey.PayloadSPPolicyParamTypeSRTPEncrOffOn, mikey.PayloadSPPolicyParamTypeSRTCPEncrOffOn, mikey.PayloadSPPolicyParamTypeSRTPAuthOffOn,
+	}
+	victim := mandatory[zzConcretize(zzIntIn("policy", 0, len(mandatory)-1))]
+	drop := zzBool("dropParameter")
+	m3 := *msg
+	m3.Payloads = nil
+	for _, pl := range msg.Payloads {
+		sp, isSP := pl.(*mikey.PayloadSP)
+		if !isSP {
+			m3.Payloads = append(m3.Payloads, pl)
+			continue
+		}
+		sp2 := &mikey.PayloadSP{PolicyNo: sp.PolicyNo, ProtType: sp.ProtType}
+		for _, pp := range sp.PolicyParams {
+			if pp.Type == victim {
+				if drop {
+					continue
+				}
+				other := zzU8("otherValue")
+				zzAssume(other != pp.Value[0])
+				pp = mikey.PayloadSPPolicyParam{Type: pp.Type, Value: []byte{other}}
+			}
+			sp2.PolicyParams = append(sp2.PolicyParams, pp)
+		}
+		m3.Payloads = append(m3.Payloads, sp2)
+	}
+	_, err3 := mikeyToContext(&m3)
+	zzAssert(err3 != nil, "a message whose security policy deviates in one mandatory parameter is refused")
 }
